@@ -29,6 +29,8 @@ type c14Case struct {
 	// that saw 400 tag keys of 200 characters, a log segment with 400 such columns (200 in each of its two events)
 	WideMetric int `json:"wideMetric,omitempty"`
 	WideLog    int `json:"wideLog,omitempty"`
+	// Ties: all events of one age carry the same timestamp, so segments of one index tie on their newest event
+	Ties bool `json:"ties,omitempty"`
 }
 
 // c14WideNames: n field names of 200 characters
@@ -43,6 +45,9 @@ func c14WideNames(n int) []string {
 const c14RetentionHours = 1
 
 func (c *c14Case) ts(age string, k int) int64 {
+	if c.Ties {
+		k = 0
+	}
 	switch age {
 	case "old":
 		return c.NowMs - 90*60*1000 + int64(k)
@@ -482,6 +487,9 @@ func c14Cases(tier string) []c14Case {
 	for _, ms := range metricsSets[1:] {
 		out = append(out, c14Case{Metrics: ms})
 	}
+	// segments of one index that tie on their newest event: three and four expired ones next to a survivor
+	out = append(out, c14Case{Segs: []c14Seg{{"a", "old"}, {"a", "old"}, {"a", "old"}, {"a", "fresh"}}, Ties: true},
+		c14Case{Segs: []c14Seg{{"a", "fresh"}, {"a", "old"}, {"a", "old"}, {"a", "old"}, {"a", "old"}, {"b", "old"}}, Metrics: []string{"old", "fresh"}, Ties: true})
 	// one segment whose metadata line exceeds 64 KiB, at either position, next to an expired and a surviving one
 	for _, ms := range metricsSets[3:] {
 		for wide := 1; wide <= 2; wide++ {
